@@ -23,6 +23,7 @@
   copies (Hairer's HINIT uses unnormalised sums), see known_findings.json c13-copies-autostep.
 -/
 import IvpModel.Proofs.NormLemmas
+import IvpModel.Proofs.BdfGenLemmas
 
 noncomputable section
 variable {K : Type} [Field K] [LinearOrder K] [IsStrictOrderedRing K] [SqrtPow K]
@@ -134,6 +135,11 @@ theorem c13_copies_radau_norms (m n : Nat) (hm : 0 < m) (hn : 0 < n) (cont scal 
   constructor
   · rw [radau_errnorm_spec, radau_errnorm_spec, key]
   · rw [radau_errnorm2_spec, radau_errnorm2_spec, key]
+
+/-- BDF's norm (translated from bdf.rs) is invariant under a common scaling of values and scales, whatever their size -/
+theorem c13_scale_bdf_norm {n : Nat} (c : K) (hc : c ≠ 0) (values scale : Vector K n) (hnz : ∀ i : Fin n, scale[i] ≠ 0) :
+    Gen.Bdf.weightedRmsScaled (scale := vsmul c scale) (values := vsmul c values)
+      = Gen.Bdf.weightedRmsScaled (scale := scale) (values := values) := bdf_weightedRms_scale c hc values scale hnz
 
 theorem c13_copies_norm (m n : Nat) (hm : 0 < m) (hn : 0 < n) (e sk : Fin n → K) :
     errSum (n := m * n) (fun i => e ⟨i.val % n, Nat.mod_lt _ hn⟩) (fun i => sk ⟨i.val % n, Nat.mod_lt _ hn⟩) / ((m * n : Nat) : K)
